@@ -164,7 +164,19 @@ static enum DeviceState ms_set(struct Storage* self, const struct StoragePropert
 static void ms_get(const struct Storage* self, struct StorageProperties* p) { (void)p; STO_ENTRY(F_GET, 0, ); }
 static void ms_get_meta(const struct Storage* self, struct StoragePropertyMetadata* p) { (void)p; STO_ENTRY(F_GET_META, 0, ); }
 static enum DeviceState ms_start(struct Storage* self) { STO_ENTRY(F_START, 1, DeviceState_Closed); return (enum DeviceState)r; }
-static enum DeviceState ms_append(struct Storage* self, const struct VideoFrame* f, size_t* nbytes) { (void)f; (void)nbytes; STO_ENTRY(F_APPEND, 1, DeviceState_Closed); return (enum DeviceState)r; }
+// the packet the caller handed to storage_append: whatever the HAL offers the device must lie inside it; the device takes only half of
+// a packet and says so (device/kit/storage.h: "can consume 0 to *nbytes ... must set *nbytes to the number of consumed bytes")
+static const unsigned char *g_pkt_beg, *g_pkt_end;
+static enum DeviceState ms_append(struct Storage* self, const struct VideoFrame* f, size_t* nbytes)
+{
+    STO_ENTRY(F_APPEND, 1, DeviceState_Closed);
+    if (nbytes && g_pkt_beg) {
+        const unsigned char* b = (const unsigned char*)f;
+        if (b < g_pkt_beg || b + *nbytes > g_pkt_end) oracle_fail("append-region-outside-the-packet", (long)(b - g_pkt_beg), (long)*nbytes);
+        if (*nbytes >= 16) *nbytes = 8 * (*nbytes / 16);
+    }
+    return (enum DeviceState)r;
+}
 static enum DeviceState ms_stop(struct Storage* self) { STO_ENTRY(F_STOP, 1, DeviceState_Closed); return (enum DeviceState)r; }
 static void ms_destroy(struct Storage* self) { (void)self; oracle_fail("destroy-called-by-hal", 0, 0); }
 static void ms_reserve(struct Storage* self, const struct ImageShape* p) { (void)p; STO_ENTRY(F_RESERVE, 0, ); }
@@ -393,7 +405,9 @@ int main(int argc, char** argv)
                 const struct VideoFrame* mid = (const struct VideoFrame*)(frames + 512);
                 const struct VideoFrame* beg = arg == 0 ? (const struct VideoFrame*)(frames + 768) : mid;
                 const struct VideoFrame* end = arg >= 2 ? (const struct VideoFrame*)(frames + 768) : mid;
+                g_pkt_beg = (const unsigned char*)beg; g_pkt_end = (const unsigned char*)end;
                 ret = storage_append(h_sto, beg, end);
+                g_pkt_beg = g_pkt_end = 0;
             } break;
             case C_SRESERVE: ret = storage_reserve_image_shape(h_sto, &shape); break;
             case C_SCLOSE: storage_close(h_sto); h_sto = 0; ret = 0; break;
